@@ -5,11 +5,13 @@ CONSTANTS
   T = 10
   D = 1
   MaxEvents = 3
+  MaxFails = 1
+  Backoff = FALSE
   Closed = TRUE
   ObserveCb = TRUE
   TrackQuiet = FALSE
   UnitMs = 1000
-INVARIANTS TypeOK Converged LearnsLive ForgetsDead SelfListed NoDuplicateAddr ChannelSane
+INVARIANTS TypeOK Converged LearnsLive ForgetsDead SelfListed PeriodRestored NoDuplicateAddr ChannelSane
 PROPERTIES CallbackIffChange NoResurrection
 ACTION_CONSTRAINT Dump
 VIEW View
